@@ -64,7 +64,7 @@ func runSolver(s solverSpec, file string, timeoutS int) (answer string, out stri
 
 func (vc *VC) discharge(opts SolveOpts, tally *Tally) {
 	var wg sync.WaitGroup
-	sem := make(chan struct{}, opts.Parallel)
+	sem := make(chan struct{}, (opts.Parallel+2)/3)
 	for i, o := range vc.obls {
 		wg.Add(1)
 		sem <- struct{}{}
@@ -90,8 +90,7 @@ func (vc *VC) solveOne(o *Obligation, opts SolveOpts, tally *Tally) {
 	if len(fname) > 200 {
 		fname = fname[:180] + fmt.Sprintf("_%d.smt2", len(o.Name))
 	}
-	withModel := q + "(get-model)\n"
-	if err := os.WriteFile(fname, []byte(withModel), 0o644); err != nil {
+	if err := os.WriteFile(fname, []byte(q), 0o644); err != nil {
 		o.Status = "error"
 		return
 	}
@@ -100,23 +99,43 @@ func (vc *VC) solveOne(o *Obligation, opts SolveOpts, tally *Tally) {
 	if o.Cover {
 		want = "sat"
 	}
-	var lastOut string
-	var log []string
+	// race the solvers: the first definite answer wins
+	type res struct {
+		solver string
+		ans    string
+		out    string
+		secs   float64
+	}
+	ctx, cancel := context.WithCancel(context.Background())
+	defer cancel()
+	ch := make(chan res, len(solvers))
 	for si, s := range solvers {
 		to := opts.Timeouts[si%len(opts.Timeouts)]
-		ans, out, secs := runSolver(s, fname, to)
+		go func(s solverSpec, to int) {
+			ans, out, secs := runSolverCtx(ctx, s, fname, to)
+			ch <- res{s.name, ans, out, secs}
+		}(s, to)
+	}
+	var log []string
+	var lastOut string
+	for range solvers {
+		r := <-ch
 		tally.mu.Lock()
-		tally.SolverSec += secs
+		tally.SolverSec += r.secs
 		tally.Queries++
 		tally.mu.Unlock()
-		log = append(log, fmt.Sprintf("%s:%s(%.2fs)", s.name, ans, secs))
-		o.Seconds += secs
-		if ans == want {
+		log = append(log, fmt.Sprintf("%s:%s(%.2fs)", r.solver, r.ans, r.secs))
+		if r.secs > o.Seconds {
+			o.Seconds = r.secs
+		}
+		if r.ans == want {
 			o.Status = "discharged"
-			o.Solver = s.name
+			o.Solver = r.solver
+			o.Seconds = r.secs
 			tally.mu.Lock()
-			tally.BySolver[s.name]++
+			tally.BySolver[r.solver]++
 			tally.mu.Unlock()
+			cancel()
 			if !opts.KeepAll {
 				os.Remove(fname)
 				o.Query = ""
@@ -124,17 +143,71 @@ func (vc *VC) solveOne(o *Obligation, opts SolveOpts, tally *Tally) {
 			o.Model = strings.Join(log, " ")
 			return
 		}
-		if ans == "sat" || ans == "unsat" {
-			// definite opposite answer
+		if r.ans == "sat" || r.ans == "unsat" {
 			o.Status = "failed"
-			o.Solver = s.name
-			o.Model = out
+			o.Solver = r.solver
+			o.Model = r.out
+			cancel()
 			return
 		}
-		if ans == "error" {
-			lastOut = out
+		if r.ans == "error" {
+			lastOut = r.out
 		}
 	}
 	o.Status = "unknown"
 	o.Model = strings.Join(log, " ") + "\n" + lastOut
+	if !o.Cover {
+		vc.searchModel(o, q, opts)
+	}
+}
+
+// searchModel looks for a candidate counterexample of an undischarged obligation: quantified
+// assumptions are dropped (solvers answer "unknown" in their presence), so the model is only a
+// candidate that must be confirmed by replay against the real code.
+func (vc *VC) searchModel(o *Obligation, q string, opts SolveOpts) {
+	var b strings.Builder
+	for _, l := range strings.Split(q, "\n") {
+		if strings.HasPrefix(l, "(assert ") && (strings.Contains(l, "(forall ") || strings.Contains(l, "(exists ")) && !strings.HasPrefix(l, "(assert (not ") {
+			continue
+		}
+		b.WriteString(l)
+		b.WriteByte('\n')
+	}
+	b.WriteString("(get-model)\n")
+	fname := strings.TrimSuffix(o.Query, ".smt2") + ".model.smt2"
+	if os.WriteFile(fname, []byte(b.String()), 0o644) != nil {
+		return
+	}
+	defer os.Remove(fname)
+	ans, out, _ := runSolver(solvers[0], fname, 8)
+	if ans == "sat" {
+		o.Model += "\ncandidate model (quantified assumptions dropped):\n" + out
+		o.candidate = out
+	}
+}
+
+func runSolverCtx(ctx context.Context, s solverSpec, file string, timeoutS int) (answer string, out string, secs float64) {
+	argv := s.argv(file, timeoutS)
+	c2, cancel := context.WithTimeout(ctx, time.Duration(timeoutS+5)*time.Second)
+	defer cancel()
+	cmd := exec.CommandContext(c2, argv[0], argv[1:]...)
+	var buf bytes.Buffer
+	cmd.Stdout = &buf
+	cmd.Stderr = &buf
+	t0 := time.Now()
+	_ = cmd.Run()
+	secs = time.Since(t0).Seconds()
+	out = buf.String()
+	first := strings.TrimSpace(strings.SplitN(out, "\n", 2)[0])
+	switch first {
+	case "sat", "unsat", "unknown":
+		answer = first
+	default:
+		if strings.Contains(out, "timeout") || c2.Err() != nil {
+			answer = "timeout"
+		} else {
+			answer = "error"
+		}
+	}
+	return
 }
